@@ -50,19 +50,115 @@ inductive Naming where
   | format (name desc : List Seg)
   deriving DecidableEq, Repr
 
-/-- `md.condition`: absent, `@lcc.hidden()` (= `visible_if(lambda _: False)`), or
-    `@lcc.visible_if(c)` where `c(obj)` evaluates to `b` at load time. -/
+/-! ### Python values as far as their *truth value* is concerned
+
+  `@lcc.visible_if(condition)`: "the test or suite will only appear if the given callable return a
+  true value".  The callable may return anything (`os.environ.get(...)` → `None` / a string,
+  `len(...)` / `.count(...)` → an int, a list of enabled features, …); what decides is Python's truth
+  protocol: `None`, `False`, numeric zeros, empty strings and empty containers are false; an instance
+  is asked `__bool__`, else `__len__`, else it is true.  `PyVal` lists the value shapes the
+  correspondence stream generates; containers and instances are abstracted to what the protocol looks
+  at (the extracted table `Generated/C13Tables.lean` re-validates `truthy` against the real
+  interpreter on every run). -/
+
+/-- A Python `float` as far as `bool()` is concerned. -/
+inductive PyFloat where
+  | fin (milli : Int)      -- the finite value `milli / 1000` (`+0.0` is `fin 0`)
+  | negZero                -- `-0.0`
+  | nan
+  | inf (neg : Bool)
+  deriving DecidableEq, Repr
+
+def PyFloat.truthy : PyFloat → Bool
+  | .fin m => decide (m ≠ 0)
+  | .negZero => false
+  | .nan => true
+  | .inf _ => true
+
+inductive PyVal where
+  | none
+  | bool (b : Bool)
+  | int (i : Int)
+  | float (f : PyFloat)
+  | str (s : String)
+  | list (len : Nat)       -- `list` / `tuple` / `dict`: only the length matters (`[0]`, `[None]` are true)
+  | tuple (len : Nat)
+  | dict (len : Nat)
+  | obj                    -- an instance (or function) defining neither `__bool__` nor `__len__`
+  | objBool (b : Bool)     -- an instance whose `__bool__` returns `b`
+  | objLen (n : Nat)       -- an instance without `__bool__` whose `__len__` returns `n`
+  deriving DecidableEq, Repr
+
+/-- `bool(v)`. -/
+def PyVal.truthy : PyVal → Bool
+  | .none => false
+  | .bool b => b
+  | .int i => decide (i ≠ 0)
+  | .float f => f.truthy
+  | .str s => if s = "" then false else true
+  | .list n => decide (n ≠ 0)
+  | .tuple n => decide (n ≠ 0)
+  | .dict n => decide (n ≠ 0)
+  | .obj => true
+  | .objBool b => b
+  | .objLen n => decide (n ≠ 0)
+
+/-- `not v`: always one of the two `bool` singletons. -/
+def pyNot (v : PyVal) : PyVal := .bool (!v.truthy)
+
+/-- `a and b` (the model is pure, so evaluating `b` eagerly is harmless). -/
+def pyAnd (a b : PyVal) : PyVal := if a.truthy then b else a
+
+/-- `v is not None`. -/
+def pyIsNotNone (v : PyVal) : PyVal := .bool (v != .none)
+
+/-- `md.condition` and what it evaluates to at load time: absent, `@lcc.hidden()`
+    (= `visible_if(lambda _: False)`), or `@lcc.visible_if(c)` where `c(obj)` returns `v`.
+    `selfTruthy` is the truth value of the callable `c` *itself*: `true` for functions, lambdas and
+    ordinary callable instances; `false` for a callable instance that is falsy (defines `__bool__` /
+    `__len__`, e.g. a callable subclass of `list` that is empty).  Since the repair of finding D36 the loader
+    no longer looks at it (`Vis.shown_eq_visible`); it stays in the layout as an input class. -/
 inductive Vis where
   | always
   | hidden
-  | cond (b : Bool)
+  | cond (selfTruthy : Bool) (v : PyVal)
   deriving DecidableEq, Repr
 
-/-- `not (md.condition and not md.condition(obj))`. -/
+/-- What the property demands: no condition ⇒ visible; `hidden()` ⇒ not; `visible_if(c)` ⇒ visible
+    iff `c(obj)` is a true value.  The core loader below and the specification (`LoaderSpec.lean`)
+    both go through this function; `Vis.shown_eq_visible` (`Lemmas/LoaderVis.lean`) ties it to the
+    expression the code evaluates. -/
 def Vis.visible : Vis → Bool
   | .always => true
   | .hidden => false
-  | .cond b => b
+  | .cond _ v => v.truthy
+
+/-- `md.condition` as a Python value (`None`, a function, or a callable instance). -/
+def Vis.conditionObj : Vis → PyVal
+  | .always => .none
+  | .hidden => .obj
+  | .cond st _ => if st then .obj else .objBool false
+
+/-- `md.condition(obj)` (not evaluated when there is no condition). -/
+def Vis.result : Vis → PyVal
+  | .always => .none
+  | .hidden => .bool false
+  | .cond _ v => v
+
+/-- The value the loader stores in `.hidden`, literally
+    `md.condition is not None and not md.condition(obj)` (`_load_test`, `load_suite_from_class`,
+    `load_suite_from_module`; fix of D36 — it was `md.condition and not …`, which consulted the truth
+    value of the callable itself): always `True` or `False`. -/
+def Vis.hiddenAttr (v : Vis) : PyVal := pyAnd (pyIsNotNone v.conditionObj) (pyNot v.result)
+
+/-- What every reader of `.hidden` does (`if not test.hidden`, `filter(lambda s: not s.hidden, …)`,
+    `if not suite.hidden`): the item is kept iff `.hidden` is a false value. -/
+def Vis.shown (v : Vis) : Bool := !v.hiddenAttr.truthy
+
+/-- The condition is a callable instance that is itself a false value. -/
+def Vis.falsyCallable : Vis → Bool
+  | .cond false _ => true
+  | _ => false
 
 /-- `md.disabled`: `False`, `True`, or the reason string. -/
 inductive Disabled where
